@@ -3697,12 +3697,22 @@ static Token *function(Token *tok, Type *basety, VarAttr *attr) {
     if (!fn->is_static && attr->is_static)
       error_tok(tok, "static declaration follows a non-static declaration");
     fn->is_definition = fn->is_definition || equal(tok, "{");
+
+    // [https://www.sigbus.info/n1570#6.7.4p7] A definition is an inline
+    // definition only if every file scope declaration of the function
+    // says "inline" without "extern". Otherwise it is an external one.
+    if (fn->is_inline_only && !attr->is_static &&
+        !(attr->is_inline && !attr->is_extern)) {
+      fn->is_inline_only = false;
+      fn->is_static = false;
+    }
   } else {
     fn = new_gvar(name_str, ty);
     fn->is_function = true;
     fn->is_definition = equal(tok, "{");
     fn->is_static = attr->is_static || (attr->is_inline && !attr->is_extern);
     fn->is_inline = attr->is_inline;
+    fn->is_inline_only = !attr->is_static && attr->is_inline && !attr->is_extern;
   }
 
   fn->is_root = fn->is_root || !(fn->is_static && fn->is_inline);
